@@ -126,7 +126,11 @@ class AsyncioTransportStreamSocketAdapter(AsyncStreamTransport):
 
     async def send_all_from_iterable(self, iterable_of_data: Iterable[bytes | bytearray | memoryview]) -> None:
         # A sized collection is needed: asyncio transports only detect an empty input through its truth value.
-        self.__transport.writelines(list(iterable_of_data))
+        buffers = list(iterable_of_data)
+        if self.__transport.is_closing():
+            # Unlike write(), writelines() does not check that the connection is still alive. Let drain() report the error.
+            buffers.clear()
+        self.__transport.writelines(buffers)
         # Some Python versions do not check the high-water mark in writelines(): pause_writing() is never called and
         # the data would be left in the transport's buffer when drain() returns. Setting the limits runs that check.
         self.__transport.set_write_buffer_limits(0)
